@@ -68,6 +68,12 @@ class Tr(object):
         raise Unsupported('constant %r' % (v,))
 
     def expr(self, e, locals_):
+        try:
+            src = ast.unparse(e)
+        except Exception:  # noqa
+            src = None
+        if src is not None and src in self.externals:
+            return self.externals[src]
         if isinstance(e, ast.Constant):
             return self.num(e.value)
         d = self.dotted(e)
@@ -126,6 +132,8 @@ class Tr(object):
             fn = self.dotted(e.func)
             if fn in ('float', 'int') and len(e.args) == 1:
                 return self.expr(e.args[0], locals_)   # numbers are rationals already
+            if fn in ('floor', 'math.floor') and len(e.args) == 1:
+                return '(((Rat.floor %s : Int)) : Rat)' % self.expr(e.args[0], locals_)
             if fn in ('min', 'max') and len(e.args) == 2:
                 return '(py%s %s %s)' % (fn, self.expr(e.args[0], locals_), self.expr(e.args[1], locals_))
             if fn is not None and fn.startswith('self.') and fn[5:] in self.spec['methods']:
